@@ -1,7 +1,7 @@
 /-
   Props/C13 — GNU symbol-version queries resolve to the right requirement / definition.
 -/
-import ElfVerif.Lemmas.Accessors
+import ElfVerif.Lemmas.AccVersion
 import ElfVerif.Props.C09
 import ElfVerif.Props.C16
 import ElfVerif.Lemmas.SymVerComplete
